@@ -22,6 +22,7 @@
 #include "c19_item.hpp"
 #include <common_defs.hpp>
 #include <new>
+#include <sys/wait.h>
 
 extern "C" int __sanitizer_install_malloc_and_free_hooks(void (*malloc_hook)(const volatile void*, size_t),
                                                           void (*free_hook)(const volatile void*));
@@ -180,6 +181,55 @@ inline void heap_end_of_case() {
   count("heap.table_overflow", h.overflow); h.overflow = 0;
 }
 
+// ------------------------------------------------------------------ risky-operation probe
+// Operations the property promises to be safe but that a defective implementation typically answers
+// with a sanitizer abort (self copy-assignment, assignment to a moved-from object) are first run in a
+// forked child.  If the child dies, the parent reports a violation with a specific key, skips the
+// operation and carries on with the rest of the program (instead of losing the shard to restarts).
+// Returns "" if the child finished, otherwise a short stable classification of how it died;
+// `report` receives the head of the child's stderr.
+template<typename Fn> std::string probe_in_child(Fn&& fn, std::string& report) {
+  Exempt ex;
+  int p[2];
+  if (pipe(p) != 0) return "";
+  fflush(nullptr);
+  count("probe_forks");
+  const pid_t pid = fork();
+  if (pid < 0) { close(p[0]); close(p[1]); return ""; }
+  if (pid == 0) {
+    G().out_fd = -1;                 // the child must not write records into the shard's output
+    dup2(p[1], 2); close(p[0]); close(p[1]);
+    --exempt_depth();
+    try { fn(); } catch (...) { _exit(0); }   // exceptions are handled by the parent's own execution
+    _exit(0);
+  }
+  close(p[1]);
+  std::string err; char buf[4096]; ssize_t n;
+  while ((n = read(p[0], buf, sizeof buf)) > 0) if (err.size() < 32768) err.append(buf, static_cast<size_t>(n));
+  close(p[0]);
+  int st = 0;
+  waitpid(pid, &st, 0);
+  if (WIFEXITED(st) && WEXITSTATUS(st) == 0) return "";
+  report = err.substr(0, 2500);
+  std::string kind;
+  size_t at = err.find("ERROR: AddressSanitizer: ");
+  if (at != std::string::npos) {
+    at += 25;
+    size_t e = at; while (e < err.size() && (isalnum(static_cast<unsigned char>(err[e])) || err[e] == '-' || err[e] == '_')) ++e;
+    kind = "asan-" + err.substr(at, e - at);
+  } else if ((at = err.find("runtime error: ")) != std::string::npos) {
+    at += 15;
+    size_t e = err.find('\n', at);
+    std::string t = err.substr(at, (e == std::string::npos ? err.size() : e) - at);
+    std::string k;
+    for (char c : t) { if (isdigit(static_cast<unsigned char>(c))) continue; if (c == '\'' || c == '<' ) break; k += (c == ' ' ? '-' : c); if (k.size() >= 40) break; }
+    while (!k.empty() && k.back() == '-') k.pop_back();
+    kind = "ubsan-" + k;
+  } else if (WIFSIGNALED(st)) kind = "signal-" + std::to_string(WTERMSIG(st));
+  else kind = "exit-" + std::to_string(WEXITSTATUS(st));
+  return kind;
+}
+
 // ------------------------------------------------------------------ pool slot
 template<typename Obj> struct Slot {
   alignas(Obj) unsigned char mem[sizeof(Obj)];
@@ -315,6 +365,7 @@ template<typename F> struct Program {
     if (!z) { destroy(x, "destroy-moved-from"); return; }
     if (c < 8) {
       tr("copy-assign-to-moved-from#" + std::to_string(find_idx(x)) + "=#" + std::to_string(find_idx(z)));
+      if (!probe("moved-from|copy-assign-to-moved-from", [&] { x->o() = z->co(); (void)F::readout(x->co(), cfg); })) { destroy(x, "destroy-moved-from"); return; }
       { LibScope ls("copy-assign-to-moved-from"); x->o() = z->co(); }
       x->valid = true;
       expect_eq(*x, z->ro, "moved-from|copy-assign-to-moved-from-differs", "object revived by copy assignment differs from the source");
@@ -323,6 +374,7 @@ template<typename F> struct Program {
     } else {
       tr("move-assign-to-moved-from#" + std::to_string(find_idx(x)) + "=#" + std::to_string(find_idx(z)));
       const std::string want = z->ro;
+      if (!probe("moved-from|move-assign-to-moved-from", [&] { x->o() = std::move(z->o()); (void)F::readout(x->co(), cfg); })) { destroy(x, "destroy-moved-from"); return; }
       { LibScope ls("move-assign-to-moved-from"); x->o() = std::move(z->o()); }
       x->valid = true;
       expect_eq(*x, want, "moved-from|move-assign-to-moved-from-differs", "object revived by move assignment differs from the source's former state");
@@ -346,7 +398,8 @@ template<typename F> struct Program {
   void op_copy_assign(S* x, S* y) {   // x = y
     tr("copy-assign#" + std::to_string(find_idx(x)) + "=#" + std::to_string(find_idx(y)));
     const bool was_valid = x->valid;
-    { LibScope ls("copy-assign"); x->o() = y->co(); }
+    if (!was_valid && !probe("moved-from|copy-assign-to-moved-from", [&] { x->o() = y->co(); (void)F::readout(x->co(), cfg); })) { destroy(x, "destroy-moved-from"); return; }
+    { LibScope ls(was_valid ? "copy-assign" : "copy-assign-to-moved-from"); x->o() = y->co(); }
     x->valid = true;
     expect_eq(*x, y->ro, "copy-assign|target-differs-from-source", "after x = y the read-out of x differs from y's");
     cnt(was_valid ? "copy_assign" : "copy_assign_to_moved_from");
@@ -356,20 +409,31 @@ template<typename F> struct Program {
     tr("move-assign#" + std::to_string(find_idx(x)) + "=#" + std::to_string(find_idx(y)));
     const std::string want = y->ro;
     const bool was_valid = x->valid;
-    { LibScope ls("move-assign"); x->o() = std::move(y->o()); }
+    if (!was_valid && !probe("moved-from|move-assign-to-moved-from", [&] { x->o() = std::move(y->o()); (void)F::readout(x->co(), cfg); })) { destroy(x, "destroy-moved-from"); return; }
+    { LibScope ls(was_valid ? "move-assign" : "move-assign-to-moved-from"); x->o() = std::move(y->o()); }
     x->valid = true;
     expect_eq(*x, want, "move-assign|target-differs-from-former-source", "after x = std::move(y) x does not have y's former read-out");
     cnt(was_valid ? "move_assign" : "move_assign_to_moved_from");
     dispose_moved_from(y);
     verify_all("move-assign");
   }
+  // run `op` (which touches only library objects, no harness state) in a child first; true = safe to do for real
+  template<typename Fn> bool probe(const char* opkey, Fn&& op) {
+    std::string report;
+    const std::string died = probe_in_child(op, report);
+    if (died.empty()) return true;
+    checked();
+    fail(fam + "|" + opkey + "|aborts|" + died, std::string("the operation kills the process (run in a forked child, skipped in the parent): ") + report + " trace=" + trace);
+    count(fam + ".probe_caught_abort");
+    return false;
+  }
   void op_self_assign(S* x) {
     tr("self-assign#" + std::to_string(find_idx(x)));
     count(fam + ".self_assign_in_mode_" + F::mode(x->co(), cfg));
     cnt("self_assign_attempt");
-    G().cur_desc = G().cur_desc + " [self copy-assign a = a in flight]";
     Obj& ref = x->o();
     const Obj& same = *static_cast<const Obj*>(static_cast<const void*>(x->mem));
+    if (!probe("self-assign", [&] { ref = same; (void)F::readout(same, cfg); })) return;
     { LibScope ls("self-copy-assign"); ref = same; }
     expect_eq(*x, std::string(x->ro), "self-assign|state-changed", "a = a changed the read-out of a");
     cnt("self_assign");
@@ -377,6 +441,7 @@ template<typename F> struct Program {
   }
   void op_chain(S* a, S* b, S* c) {   // a = b = c
     tr("chain#" + std::to_string(find_idx(a)) + "=#" + std::to_string(find_idx(b)) + "=#" + std::to_string(find_idx(c)));
+    if ((!a->valid || !b->valid) && !probe("moved-from|copy-assign-to-moved-from", [&] { a->o() = b->o() = c->co(); (void)F::readout(a->co(), cfg); })) return;
     { LibScope ls("chain-assign"); a->o() = b->o() = c->co(); }
     a->valid = b->valid = true;
     expect_eq(*b, c->ro, "chain-assign|middle-differs", "after a = b = c the read-out of b differs from c's");
